@@ -70,6 +70,13 @@ def run_case(case):
     all_cls, any_nt = [], False
     vectors = [weights] + [dict(w) for w in case.get('more_weights', [])]
     for call_no, weights in enumerate(vectors):
+        if call_no and case.get('move_cash'):
+            # the portfolio's equity changes between two calls on the same sizer (same instant)
+            c_ = b.get_portfolio_cash_balance('p')
+            if c_ > 2:
+                b.withdraw_funds_from_portfolio('p', float('%.6g' % (0.4 * c_)))
+                all_cls.append('equity_changed_between_calls')
+        E = F(b.get_portfolio_total_equity('p'))
         out = sizer(kit.T_OPEN, dict(weights))
         if set(out.keys()) != set(weights.keys()):
             raise Violation('target keys %s differ from weight keys %s' % (sorted(out), sorted(weights)))
@@ -195,6 +202,7 @@ def cases(draw):
     elif inv == 'nan_price':
         case['nan_asset'] = draw(st.sampled_from(assets))
         case.pop('hold', None)
+    case['move_cash'] = draw(st.booleans())
     if inv:
         case['invalid'] = inv
         case.pop('more_weights', None)
